@@ -181,7 +181,7 @@ def run_case(spec):
 def check(rep, tier, seed, specs=None, n_override=None):
     quick = tier == 'quick'
     if specs is None:
-        n = n_override or (6000 if quick else 200000)
+        n = n_override or (20000 if quick else 200000)
         specs = [{'seed': common.hash64('c20', 'fixed' if i < n // 2 else seed, i)} for i in range(n)]
     results, lost = common.shard_run('c20', specs, timeout_s=1200 if quick else 4 * 3600)
     rep.rule = ('1-25 generated targets (random, low-complexity, tryptic, 1-3 residue, optionally duplicated sequences, multi-entry headers) x '
